@@ -1,5 +1,7 @@
 import TR.Lemmas.Limit
+import TR.Lemmas.LimitTrace
 import TR.Lemmas.Adaptive
+import TR.Lemmas.AdaptiveMulti
 /-!
 # C13 — the adaptive limiter keeps its limit in bounds and its in-flight count exact
 
@@ -23,6 +25,13 @@ ready / pending / error per poll — `manual ready h= rdy=`, `arrive … h=` —
 Part C (`TR.Adaptive`, interleaving model): clones of the service on any number of threads, every
 thread program (acquire = `poll_ready` + `call`, complete / fail / panic, drop, reads, direct
 feedback), every schedule of the yield points (one per hooked atomic operation).
+
+Part E (`TR.Adaptive`, `Multi`): any number of services built from one layer value or from clones of it (`svc=<k>`), every
+sequence of operations on them.
+
+Part D (`TR.Limit`, protocol level): every value-level trace of the hooked atomics that the checker
+`TR.Limit.checkTrace` accepts — any number of threads, feedback operations and atomic operations, in any
+interleaving, however an implementation sequences its loads, stores and read-modify-writes.
 -/
 namespace TR.Props.C13
 open TR
@@ -618,5 +627,274 @@ example :
   decide
 
 end threads
+
+/-! ## Part E — several services built from one layer value: the algorithm is shared, the in-flight count is not -/
+section services
+open TR.Adaptive
+open TR.Limit (Cfg InB)
+
+/-- **The services of one layer share the algorithm** (the layer holds it in an `Arc`; `Layer::layer`, `Clone` of the
+layer, `into_layer` and the builder paths all hand out that same `Arc`): every service sees the same cells, and what an
+operation on service `k` does to the algorithm (feedback from a completion) is what every service `j` sees next. -/
+theorem services_share_algorithm (cfg : Cfg) (m : Multi) (k j : Nat) (op : Op) :
+    (view m j).alg = (view m k).alg ∧ (view (stepM cfg m k op) j).alg = (stepS cfg (view m k) op).alg := by
+  refine ⟨?_, ?_⟩
+  · unfold view; split <;> split <;> rfl
+  · unfold view stepM
+    split <;> rfl
+
+/-- **… and nothing else: a step on one service leaves every other service as it was** — its in-flight counter, its
+running, checked and held callers, its ready handles, its mirror, its ghost records. (Documented behaviour:
+`AdaptiveService::new` creates a fresh counter per service.) -/
+theorem services_independent (cfg : Cfg) (m : Multi) (k j : Nat) (op : Op) (h : j ≠ k) :
+    lookup (stepM cfg m k op).svcs j = lookup m.svcs j ∧
+    (view (stepM cfg m k op) j).inFlight = (view m j).inFlight ∧
+    (view (stepM cfg m k op) j).running = (view m j).running ∧
+    (view (stepM cfg m k op) j).checked = (view m j).checked ∧
+    (view (stepM cfg m k op) j).held = (view m j).held ∧
+    (view (stepM cfg m k op) j).hready = (view m j).hready := by
+  have hl : lookup (stepM cfg m k op).svcs j = lookup m.svcs j := lookup_setKey_ne _ _ _ _ h
+  refine ⟨hl, ?_, ?_, ?_, ?_, ?_⟩ <;>
+  · unfold view
+    rw [hl]
+    split <;> rfl
+
+/-- A service that has not been used yet starts with nothing in flight, whatever the other services are doing, and
+compares with the shared limit. -/
+theorem new_service_starts_empty (m : Multi) (k : Nat) (h : lookup m.svcs k = none) :
+    (view m k).inFlight = 0 ∧ (view m k).running = [] ∧ (view m k).alg = m.alg ∧ (view m k).cur = m.alg.limit := by
+  unfold view
+  rw [h]
+  exact ⟨rfl, rfl, rfl, rfl⟩
+
+/-- **In-flight count exact, per service**: after any sequence of operations on any services of the layer, every
+service's counter equals the number of ITS calls really running (so zero once none of its calls is running, whatever
+is in flight on the other services), readiness is refused on it iff that number has reached the shared limit, and the
+shared limit is within `[min, max]`. -/
+theorem services_in_flight_exact (cfg : Cfg) (hmm : cfg.min ≤ cfg.max) (hf : cfg.fnum ≤ cfg.fden)
+    (ops : List (Nat × Op)) (j : Nat) :
+    (view (runM cfg ops) j).inFlight = (view (runM cfg ops) j).running.length ∧
+    ((view (runM cfg ops) j).running = [] → (view (runM cfg ops) j).inFlight = 0) ∧
+    (atCapacity (view (runM cfg ops) j) = true ↔ (view (runM cfg ops) j).running.length ≥ (runM cfg ops).alg.limit) ∧
+    InB cfg (runM cfg ops).alg.limit := by
+  have hm := runM_inv (cfg := cfg) ⟨hmm, hf⟩ ops
+  have hi := view_inv hm j
+  have halg : (view (runM cfg ops) j).alg = (runM cfg ops).alg := by unfold view; split <;> rfl
+  refine ⟨hi.exact, ?_, ?_, hm.alg.lim⟩
+  · intro hq; rw [hi.exact, hq]; rfl
+  · simp only [atCapacity, decide_eq_true_eq]
+    rw [hi.exact, halg]
+
+/-- Non-vacuity: limit 2 shared by two services. Service 0 takes two calls (at capacity: refused), service 1 — built
+later, from the same layer — still admits two of its own (its counter is its own) and is then refused as well; a failure
+completing on service 1 halves the shared limit: service 0, with two calls still running, now sees limit 1. -/
+example :
+    let cfg : Cfg := { kind := .aimd, min := 1, max := 4, initial := 2, thrNs := 5000000 }
+    let a : List (Nat × Op) := [(0, .arrive 1 ⟨9, .never⟩ false), (0, .arrive 2 ⟨9, .never⟩ false), (0, .arrive 3 ⟨0, .ok⟩ false),
+      (1, .arrive 4 ⟨0, .err 1⟩ false), (1, .arrive 5 ⟨9, .ok⟩ false), (1, .arrive 6 ⟨0, .ok⟩ false)]
+    (view (runM cfg a) 0).running = [1, 2] ∧ (view (runM cfg a) 0).inFlight = 2 ∧
+    (view (runM cfg a) 1).running = [4, 5] ∧ (view (runM cfg a) 1).inFlight = 2 ∧
+    (view (runM cfg a) 2).inFlight = 0 ∧ (runM cfg a).alg.limit = 2 ∧
+    (runM cfg (a ++ [(1, .poll 4)])).alg.limit = 1 ∧ (view (runM cfg (a ++ [(1, .poll 4)])) 0).alg.limit = 1 ∧
+    (view (runM cfg (a ++ [(1, .poll 4)])) 0).inFlight = 2 ∧ (view (runM cfg (a ++ [(1, .poll 4)])) 1).inFlight = 1 := by
+  decide
+
+end services
+
+/-! ## Part D — protocol level: every value-level trace of the atomics that `checkTrace` accepts
+
+Parts A and C are about step-by-step transcriptions of `aimd.rs` / `algorithm.rs` / `service.rs`. The theorems below do not
+depend on how an implementation sequences its atomic operations: they hold for **every** trace — any number of
+threads, calls and atomic operations, in any interleaving — in which the cell values chain and each write to the limit
+cell, made inside a feedback operation, stores one of the modelled update functions (`aimdSuccNew`, `aimdFailNew`,
+`aimdSuccsNew n`, `vegasFailNew`, `vegasNew … q` for some estimate `q`, the clamped initial value for `reset`) applied to a
+value the same operation read from the cell earlier (`TR.Model.LimitTrace`). The harness records such a trace from the
+hooked atomics on every scheduled run (and every sequential warm-up) and the model's checker decides it; a rewrite
+that keeps the protocol — every load/store pair replaced by one `fetch_update`, a store skipped when nothing changes —
+keeps these theorems applicable even when its step sequence no longer matches the transcription. -/
+section protocol
+open TR.Limit
+
+/-- **The limit stays within `[min_limit, max_limit]` in every accepted trace**: starting from a limit within the
+bounds, every value the limit cell ever holds in the course of the trace (`limValues`: the value each atomic operation
+on the cell leaves behind), the value it holds at the end, and every value a `limit()` call returned lie in
+`[min, max]` — for AIMD, the bare controller (`record_successes`, `reset`) and Vegas, whatever the interleaving. -/
+theorem trace_limit_in_bounds (cfg : Cfg) (hmm : cfg.min ≤ cfg.max) (hf : cfg.fnum ≤ cfg.fden) (v0 i0 : Nat)
+    (hv : InB cfg v0) (tr : List Item) (cs : CS) (h : checkTrace cfg v0 i0 tr = some cs) :
+    (∀ v ∈ limValues tr, InB cfg v) ∧ InB cfg (finalLim v0 tr) ∧ cs.lim = finalLim v0 tr ∧
+      ∀ v ∈ readResults tr, InB cfg v := by
+  obtain ⟨hrun, _, _⟩ := checkTrace_run h
+  have r := crun_ok ⟨hmm, hf⟩ tr (cinit_inv i0 hv) hrun
+  refine ⟨?_, ?_, ?_, ?_⟩
+  · intro v hm
+    exact r.inv.vals v (by rw [r.vals]; exact List.mem_append_right _ hm)
+  · have := r.lim; simp only [cinit] at this; rw [← this]; exact r.inv.lim
+  · have := r.lim; simpa [cinit] using this
+  · intro v hm
+    exact r.inv.rets v (by rw [r.rets]; exact List.mem_append_right _ hm)
+
+/-- … and at every point of an accepted trace: whatever split `a ++ b`, every value the cell held during `a` and the
+value it holds after `a` are within the bounds. -/
+theorem trace_limit_in_bounds_prefix (cfg : Cfg) (hmm : cfg.min ≤ cfg.max) (hf : cfg.fnum ≤ cfg.fden) (v0 i0 : Nat)
+    (hv : InB cfg v0) (a b : List Item) (cs : CS) (h : checkTrace cfg v0 i0 (a ++ b) = some cs) :
+    (∀ v ∈ limValues a, InB cfg v) ∧ InB cfg (finalLim v0 a) := by
+  obtain ⟨hrun, _, _⟩ := checkTrace_run h
+  obtain ⟨cs1, r, _⟩ := crun_split ⟨hmm, hf⟩ a b (cinit_inv i0 hv) hrun
+  refine ⟨?_, ?_⟩
+  · intro v hm
+    exact r.inv.vals v (by rw [r.vals]; exact List.mem_append_right _ hm)
+  · have := r.lim; simp only [cinit] at this; rw [← this]; exact r.inv.lim
+
+/-- Several traces one after the other (the rounds and warm-ups of one case): each accepted, each beginning with the
+value the previous one left in the cell. -/
+def checkRounds (cfg : Cfg) : Nat → List (Nat × List Item) → Option Nat
+  | v, [] => some v
+  | v, (i0, tr) :: tl =>
+    match checkTrace cfg v i0 tr with
+    | some cs => checkRounds cfg cs.lim tl
+    | none => none
+
+/-- **From the constructor on**: a freshly built algorithm holds `initial.clamp(min, max)`; after any number of
+accepted traces (rounds of threads, warm-ups) every value the limit cell held in any of them, and the value it holds in
+the end, is within `[min, max]`. -/
+theorem trace_rounds_in_bounds (cfg : Cfg) (hmm : cfg.min ≤ cfg.max) (hf : cfg.fnum ≤ cfg.fden)
+    (trs : List (Nat × List Item)) (vend : Nat) (h : checkRounds cfg (clampInit cfg) trs = some vend) :
+    InB cfg vend ∧ ∀ p ∈ trs, ∀ v ∈ limValues p.2, InB cfg v := by
+  suffices hgen : ∀ (trs : List (Nat × List Item)) (v0 : Nat), InB cfg v0 → checkRounds cfg v0 trs = some vend →
+      InB cfg vend ∧ ∀ p ∈ trs, ∀ v ∈ limValues p.2, InB cfg v from hgen trs _ (clampInit_inB hmm) h
+  intro trs
+  induction trs with
+  | nil =>
+    intro v0 hv hc
+    simp only [checkRounds] at hc
+    cases hc
+    exact ⟨hv, by intro p hp; cases hp⟩
+  | cons p tl ih =>
+    intro v0 hv hc
+    obtain ⟨i0, tr⟩ := p
+    simp only [checkRounds] at hc
+    split at hc
+    · next cs hcs =>
+      obtain ⟨h1, h2, h3, _⟩ := trace_limit_in_bounds cfg hmm hf v0 i0 hv tr cs hcs
+      obtain ⟨ha, hb⟩ := ih cs.lim (by rw [h3]; exact h2) hc
+      refine ⟨ha, ?_⟩
+      intro q hq
+      simp only [List.mem_cons] at hq
+      rcases hq with hq | hq
+      · subst hq; exact h1
+      · exact hb q hq
+    · cases hc
+
+/-- The three estimates the checker tries are all there is: a value is `vegasNew cfg r q` for SOME queue estimate `q`
+iff it is one of `vegasNew cfg r 0`, `vegasNew cfg r (beta + 1)`, `vegasNew cfg r alpha`. -/
+theorem vegas_three_results (cfg : Cfg) (r new : Nat) :
+    (∃ q, new = vegasNew cfg r q) ↔
+      (new = vegasNew cfg r 0 ∨ new = vegasNew cfg r (cfg.beta + 1) ∨ new = vegasNew cfg r cfg.alpha) := by
+  constructor
+  · rintro ⟨q, rfl⟩
+    unfold vegasNew
+    by_cases h1 : q < cfg.alpha
+    · left
+      have : 0 < cfg.alpha := by omega
+      simp [h1, this]
+    · by_cases h2 : q > cfg.beta
+      · by_cases h3 : cfg.beta + 1 < cfg.alpha
+        · right; right
+          have h4 : cfg.alpha > cfg.beta := by omega
+          simp [h1, h2, h4]
+        · right; left
+          simp [h1, h2, h3]
+      · right; right
+        have h4 : ¬ cfg.alpha > cfg.beta := by omega
+        simp [h1, h2, h4]
+  · rintro (h | h | h)
+    · exact ⟨_, h⟩
+    · exact ⟨_, h⟩
+    · exact ⟨_, h⟩
+
+/-- **In-flight count exact in every accepted trace** (rounds of threads on clones of the service): once every
+operation has returned, the counter is what it was at the beginning plus the `poll_ready`+`call` operations that were
+admitted minus the operations that ended a call their thread held (completion, failure, panic, drop) — so with
+everything the threads started ended again, the limiter reports what it reported before the round. -/
+theorem trace_in_flight_exact (cfg : Cfg) (hmm : cfg.min ≤ cfg.max) (hf : cfg.fnum ≤ cfg.fden) (v0 i0 : Nat)
+    (hv : InB cfg v0) (tr : List Item) (cs : CS) (h : checkTrace cfg v0 i0 tr = some cs) :
+    finalInf i0 tr + releasedCalls tr = i0 + admittedCalls tr := by
+  obtain ⟨hrun, ha, hr⟩ := checkTrace_run h
+  have r := crun_ok ⟨hmm, hf⟩ tr (cinit_inv i0 hv) hrun
+  have h1 := r.inv.cnt; have h2 := r.inv.adm; have h3 := r.inv.rel
+  have h4 := r.adm; have h5 := r.rel; have h6 := r.inf
+  simp only [cinit] at h4 h5 h6
+  omega
+
+/-- … and at every point of an accepted trace (any split `a ++ b`): the counter is the initial value plus admitted
+minus ended calls, up to the operations in progress at that point — `inAcq` of the acquisitions that have begun and not
+yet returned have already counted themselves in, `inRel` of the ending operations in progress have already counted
+their call out. -/
+theorem trace_in_flight_prefix (cfg : Cfg) (hmm : cfg.min ≤ cfg.max) (hf : cfg.fnum ≤ cfg.fden) (v0 i0 : Nat)
+    (hv : InB cfg v0) (a b : List Item) (cs : CS) (h : checkTrace cfg v0 i0 (a ++ b) = some cs) :
+    ∃ inAcq inRel, inAcq + endedAcq a ≤ begunAcq a ∧ inRel + releasedCalls a ≤ begunRel a ∧
+      finalInf i0 a + releasedCalls a + inRel = i0 + admittedCalls a + inAcq := by
+  obtain ⟨hrun, _, _⟩ := checkTrace_run h
+  obtain ⟨cs1, r, _⟩ := crun_split ⟨hmm, hf⟩ a b (cinit_inv i0 hv) hrun
+  refine ⟨cs1.openAW, cs1.openRW, ?_, ?_, ?_⟩
+  · have h1 := r.inv.ba; have h2 := r.begA; have h3 := r.finA
+    simp only [cinit] at h2 h3
+    omega
+  · have h1 := r.inv.br; have h2 := r.begR; have h3 := r.rel
+    simp only [cinit] at h2 h3
+    omega
+  · have h1 := r.inv.cnt; have h2 := r.inv.adm; have h3 := r.inv.rel
+    have h4 := r.adm; have h5 := r.rel; have h6 := r.inf
+    simp only [cinit] at h4 h5 h6
+    omega
+
+/-- Non-vacuity (traces recorded from the real code). (1) AIMD, limit 4, `increase_by = 2`, max 9: two threads record a
+success each, both load 4, both store 6 (a lost update, within the bounds): accepted. (2) The same two operations as
+one `fetch_update` each (the harmless rewrite): 4 → 6 → 8, accepted by the same checker although the step sequence
+differs. (3) Vegas on its floor (min 2) writing `min − 1` (the boundary slip `>=` for `>`): rejected at the store.
+(4) A write outside any feedback operation, and a `limit()` call that writes: rejected. -/
+example :
+    let cfg : Cfg := { kind := .aimd, min := 2, max := 9, initial := 4, inc := 2 }
+    let s : TrOp := { fb := .succ 0 }
+    let l : TrOp := { rd := true }
+    let tr1 : List Item := [.begin 9 l, .lim 9 .load 4 4 true, .fin 9 l (some 4),
+      .begin 0 s, .begin 1 s, .lim 0 .load 4 4 true, .lim 1 .load 4 4 true, .lim 0 .store 4 6 true, .fin 0 s none,
+      .lim 1 .store 6 6 true, .fin 1 s none]
+    let tr2 : List Item := [.begin 9 l, .lim 9 .load 4 4 true, .fin 9 l (some 4),
+      .begin 0 s, .begin 1 s, .lim 0 .rmw 4 6 true, .fin 0 s none, .lim 1 .rmw 6 8 true, .fin 1 s none]
+    (checkTrace cfg 4 0 tr1).isSome = true ∧ limValues tr1 = [4, 4, 4, 6, 6] ∧ readResults tr1 = [4] ∧
+    (checkTrace cfg 4 0 tr2).isSome = true ∧ limValues tr2 = [4, 6, 8] ∧
+    cfirstBad cfg (cinit 4 0) 0 [.lim 0 .store 4 5 true] = some 0 ∧
+    cfirstBad cfg (cinit 4 0) 0 [.begin 0 l, .lim 0 .rmw 4 6 true] = some 1 := by
+  decide
+
+example :
+    let cfg : Cfg := { kind := .vegas, min := 2, max := 8, initial := 2, alpha := 1, beta := 2 }
+    let s : TrOp := { fb := .succ 8388608 }
+    cfirstBad cfg (cinit 2 0) 0 [.begin 0 s, .oth, .oth, .lim 0 .load 2 2 true, .lim 0 .store 2 1 true, .fin 0 s none] = some 4 ∧
+    (checkTrace cfg 2 0 [.begin 0 s, .oth, .oth, .lim 0 .load 2 2 true, .lim 0 .store 2 3 true, .fin 0 s none]).isSome = true ∧
+    (checkTrace cfg 2 0 [.begin 0 s, .oth, .oth, .lim 0 .load 2 2 true, .fin 0 s none]).isSome = true := by
+  decide
+
+/-- Non-vacuity (in-flight counter): two threads on clones of the service with one call of a single-threaded caller in
+flight meanwhile (`i0 = 1`): both are admitted (`fetch_add`), thread 0 completes its call, thread 1 drops its — the two
+`fetch_sub`s interleaved with the feedback of thread 0 — and the counter is back to 1. The guard release written as
+load + store (two threads, both load 3, both store 2) is rejected at the first plain store. -/
+example :
+    let cfg : Cfg := { kind := .aimd, min := 1, max := 8, initial := 4 }
+    let a : TrOp := { role := .acq }
+    let c : TrOp := { fb := .succ 0, role := .rel }
+    let d : TrOp := { role := .rel }
+    let tr : List Item := [.begin 0 a, .lim 0 .load 4 4 true, .inf 0 .load 1 1 true, .begin 1 a, .inf 0 .rmw 1 2 true,
+      .lim 1 .load 4 4 true, .inf 1 .load 2 2 true, .inf 1 .rmw 2 3 true, .fin 0 a (some 1), .fin 1 a (some 1),
+      .begin 0 c, .begin 1 d, .inf 0 .rmw 3 2 true, .inf 1 .rmw 2 1 true, .lim 0 .load 4 4 true, .fin 1 d none,
+      .lim 0 .store 4 5 true, .fin 0 c none]
+    (checkTrace cfg 4 1 tr).isSome = true ∧ finalInf 1 tr = 1 ∧ admittedCalls tr = 2 ∧ releasedCalls tr = 2 ∧
+    finalLim 4 tr = 5 ∧
+    cfirstBad cfg (cinit 4 3) 0 [.begin 0 d, .begin 1 d, .inf 0 .load 3 3 true, .inf 1 .load 3 3 true,
+      .inf 0 .store 3 2 true, .inf 1 .store 2 2 true] = some 4 := by
+  decide
+
+end protocol
 
 end TR.Props.C13
